@@ -276,6 +276,34 @@ func subC20(out string, seed uint64, tier string, arg string) {
 			dnCertP([][]atv{{{oidC, 0x13, "US"}}, {{oid, 0x0C, val}}, {{oidCN, 0x0C, "n.example.com"}}}, fmt.Sprintf("%v length %d", oid, n))
 		}
 	}
+	// ---- the BR / S/MIME AIA internal-name pair on certificates in scope of both (serverAuth + emailProtection,
+	// an S/MIME BR policy, an rfc822Name), with every shape of AIA host in either position
+	aiaURLs := []string{"http://ocsp.example.com", "http://ocsp.example.com:8080/x", "http://intranet/ocsp", "http://intranet:80/", "http://192.0.2.1/", "http://192.0.2.1:8080/",
+		"http://[2001:db8::1]/", "http://[2001:db8::1]:80/", "http://10.0.0.1:80", "ldap://dir.example.com/cn=x", "http://%zz", "", "http://example.notatld/", "HTTP://EXAMPLE.COM/",
+		"http://user@host.example.com/", "//noscheme.example.com/", "mailto:x@example.com", "http://example.com./", "http://localhost:8080/", "http://[::1]/", "http://256.1.1.1/", "http://1.2.3/"}
+	aiaCert := func(ocsp, ca []string) {
+		der, err := BuildCert(CertSpec{Subject: pkixName("Alice"), Emails: []string{"alice@example.com"}, DNS: []string{"aia.example.com"},
+			EKUs: []stdx509.ExtKeyUsage{stdx509.ExtKeyUsageServerAuth, stdx509.ExtKeyUsageEmailProtection},
+			Policies: []asn1.ObjectIdentifier{{2, 23, 140, 1, 5, 1, 2}}, OCSP: ocsp, CAIssuers: ca,
+			NotBefore: time.Date(2024, 3, 1, 0, 0, 0, 0, time.UTC)})
+		if err != nil {
+			rep.count("kit-build-error:aia")
+			return
+		}
+		if o := parseObj("cert", "kit-aia", der); o != nil {
+			cmp(o, pairBy["any"], fmt.Sprintf("aia ocsp=%q caIssuers=%q", ocsp, ca))
+		} else {
+			rep.count("kit-rejected-by-parser:aia")
+		}
+	}
+	for _, u := range aiaURLs {
+		aiaCert([]string{u}, nil)
+		aiaCert(nil, []string{u})
+		aiaCert([]string{"http://ocsp.example.com"}, []string{u})
+	}
+	for i := 0; i < nl; i++ {
+		aiaCert([]string{aiaURLs[rng.Intn(len(aiaURLs))], aiaURLs[rng.Intn(len(aiaURLs))]}, []string{aiaURLs[rng.Intn(len(aiaURLs))]})
+	}
 	// ---- DSA and AIA pairs over the corpus (and mutants): whenever both ran
 	objs := loadObjects()
 	lim := 400
